@@ -270,30 +270,56 @@ def gen_extension(rng, dump, n):
     enums = [t for t in dump["types"] if t["kind"] == "enum"]
     inputs = [t for t in dump["types"] if t["kind"] == "input"]
     unions = [t for t in dump["types"] if t["kind"] == "union"]
+    roots = [r["name"] for r in dump["roots"] if r]
     for _ in range(rng.randint(1, 3)):
         k = rng.random()
-        if k < 0.3 and objs:
+        if k < 0.25 and objs:
             t = rng.choice(objs)
-            parts.append("extend type %s { ext_%d(arg_one: Int = 1): %s }" % (
-                t["name"], n, rng.choice(["Int", "String", "[%s]" % rng.choice(objs)["name"]])))
-        elif k < 0.4 and ifaces:
+            ftype = rng.choice(["Int", "String", "[%s]" % rng.choice(objs)["name"], "%s!" % rng.choice(objs)["name"]]
+                               + [e["name"] for e in enums] + [u["name"] for u in unions])
+            args = rng.choice(["", "(arg_one: Int = 1)", '(s: String = "x", flag_b: Boolean)',
+                               "(e: %s)" % enums[0]["name"] if enums else "",
+                               "(inp: %s)" % inputs[0]["name"] if inputs else ""])
+            extra = rng.choice(["", ' @deprecated(reason: "gone")', " @deprecated", ' @rename(to: "ext_renamed")'])
+            desc = rng.choice(["", '"an added field" '])
+            impl = ""
+            cands = [i["name"] for i in ifaces if i["name"] not in [r["name"] for r in t["refs"]]]
+            if cands and rng.random() < 0.3:
+                i = rng.choice(cands)
+                it = [x for x in ifaces if x["name"] == i][0]
+                # implement the interface: declare its fields too (same types, no arguments issues for validate)
+                impl = " implements " + i
+            parts.append("extend type %s%s { %sext_%d%s: %s%s }" % (t["name"], impl, desc, n, args, ftype, extra))
+        elif k < 0.33 and ifaces:
             t = rng.choice(ifaces)
-            parts.append("extend interface %s { ext_if_%d: Int }" % (t["name"], n))
-        elif k < 0.5 and enums:
-            parts.append("extend enum %s { EXT_%d }" % (rng.choice(enums)["name"], n))
-        elif k < 0.6 and inputs:
-            parts.append("extend input %s { ext_in_%d: Int = 5 }" % (rng.choice(inputs)["name"], n))
-        elif k < 0.7 and unions and objs:
+            parts.append("extend interface %s { ext_if_%d(a_b: [Int!] = [1, 2]): Int }" % (t["name"], n))
+        elif k < 0.43 and enums:
+            parts.append('extend enum %s { "added" EXT_%d, EXT_B_%d @deprecated(reason: "r") }' % (rng.choice(enums)["name"], n, n))
+        elif k < 0.53 and inputs:
+            parts.append("extend input %s { ext_in_%d: Int = 5, ext_ref_%d: %s }" % (
+                rng.choice(inputs)["name"], n, n, rng.choice(["String", "[Float]"] + [e["name"] for e in enums])))
+        elif k < 0.62 and unions and objs:
             u = rng.choice(unions)
             cands = [o["name"] for o in objs if o["name"] not in [m["name"] for m in u["members"]]
-                     and o["name"] not in ("Query", "Mut", "Sub")]
+                     and o["name"] not in roots]
             if cands:
                 parts.append("extend union %s = %s" % (u["name"], rng.choice(cands)))
-        elif k < 0.85:
-            parts.append("type New%d { id: ID, back: %s }\nextend type Query { new_%d: New%d }" % (
+        elif k < 0.78:
+            parts.append('"new type" type New%d { id: ID, back: %s }\nextend type Query { new_%d(x_y: Int = 3): New%d }' % (
                 n, rng.choice(objs)["name"] if objs else "Int", n, n))
-        elif k < 0.92:
-            parts.append("directive @added%d(x: Int) on FIELD" % n)
+        elif k < 0.84:
+            parts.append("input NewIn%d { a_b: Int = 2, c: %s }\ndirective @added%d(x: NewIn%d, y_z: Int) on FIELD | QUERY"
+                         % (n, rng.choice(["String"] + [i["name"] for i in inputs]), n, n))
+        elif k < 0.88 and "Mut" not in roots and dump["roots"][1] is None:
+            parts.append("type NewMut%d { do_it(v: Int): Int }\nextend schema { mutation: NewMut%d }" % (n, n))
+        elif k < 0.91 and objs:
+            parts.append("extend interface %s { wrong_kind_%d: Int }" % (rng.choice(objs)["name"], n))  # ExtensionError
+        elif k < 0.94 and objs:
+            t = rng.choice(objs)
+            if t["fields"]:
+                parts.append("extend type %s { %s: Int }" % (t["name"], t["fields"][0]["name"]))   # duplicate field
+        elif k < 0.97 and objs:
+            parts.append("extend type %s { unknown_ref_%d: Nope%d }" % (rng.choice(objs)["name"], n, n))  # SDLError
         else:
             parts.append("extend type Missing%d { a: Int }" % n)       # ExtensionError
     # de-duplicate extensions of the same target producing duplicate members
